@@ -65,6 +65,9 @@ def e2e_oracle(chk, r):
         chk.violation("summary", r["cfg"], {"number_of_boreholes": nb, "coordinate_rows": len(rows)}, "number of boreholes equals the number of coordinate rows")
     if abs(drill - nb * H) > 1e-9 * max(1.0, drill):
         chk.violation("summary", r["cfg"], {"total_drilling": drill, "count_x_height": nb * H}, "total drilling equals count x height")
+    if r.get("nbh") is not None and (nb != r["nbh"] or abs(H - r["H"]) > 1e-9):
+        chk.violation("summary", r["cfg"], {"summary": [nb, H], "design_returned_by_find_design": [r["nbh"], r["H"]]},
+                      "the written summary reports the design that was just found (number of boreholes and height of the returned design)")
     sr = js["simulation_results"]
     if abs(sr["max_hp_eft"]["value"] - r["resim_max"]) > TOL or abs(sr["min_hp_eft"]["value"] - r["resim_min"]) > TOL:
         chk.violation("summary", r["cfg"], {"reported": [sr["max_hp_eft"]["value"], sr["min_hp_eft"]["value"]], "resimulated_at_reported_height": [r["resim_max"], r["resim_min"]], "H": H},
@@ -167,6 +170,10 @@ Eval vm_compute in (length cases, length (filter (fun c => negb (ok c)) cases)).
     # a flow given for the whole system: the flow per borehole (and with it R_b and the peak-load durations) changes from candidate to candidate
     cfgs += [cfg(months=12, loads={"kind": "balanced", "scale": 30000.0, "seed": 7}, flow=("SYSTEM", 1.6)),
              cfg("RECTANGLE", months=12, loads={"kind": "cooling", "scale": 26000.0, "seed": 2}, flow=("SYSTEM", 1.2))]
+    # the same manager (and process) ran and wrote another study first — other limits, other loads, the same project name / notes / author / iteration
+    again = cfg(months=12, loads={"kind": "balanced", "scale": 42000.0, "seed": 7}, design={"max_eft": 30.0, "min_eft": 8.0})
+    again["_first_configured_with"] = {"design": {"max_eft": 35.0, "min_eft": 5.0}, "loads": {"synthetic": {"kind": "balanced", "scale": 26000.0, "seed": 7}}}
+    cfgs.append(again)
     sx = cfg("RECTANGLE", months=12)
     sx["_suffix"] = "_A"
     cfgs.append(sx)
